@@ -1196,6 +1196,7 @@ func (f *fragment) min(filter *Row, bitDepth uint) (min int64, count uint64, err
 
 // minUnsigned the lowest value without considering the sign bit. Filter is required.
 func (f *fragment) minUnsigned(filter *Row, bitDepth uint) (min int64, count uint64) {
+	count = filter.Count() // with bit depth 0 every considered column holds 0
 	for i := int(bitDepth - 1); i >= 0; i-- {
 		row := filter.Difference(f.row(uint64(bsiOffsetBit + i)))
 		count = row.Count()
@@ -1238,6 +1239,7 @@ func (f *fragment) max(filter *Row, bitDepth uint) (max int64, count uint64, err
 
 // maxUnsigned the highest value without considering the sign bit. Filter is required.
 func (f *fragment) maxUnsigned(filter *Row, bitDepth uint) (max int64, count uint64) {
+	count = filter.Count() // with bit depth 0 every considered column holds 0
 	for i := int(bitDepth - 1); i >= 0; i-- {
 		row := f.row(uint64(bsiOffsetBit + i)).Intersect(filter)
 		count = row.Count()
